@@ -225,6 +225,15 @@ func build(p propDef) *built {
 	if p.SetConst != "" {
 		args = append(args, "-setconst", p.SetConst)
 	}
+	if pf := os.Getenv("VERIF_PATCH"); pf != "" {
+		// a change under test: the patched copies of the files it touches replace /repo's
+		// files for this build only; /repo itself is not modified
+		io, err := patchedFiles(pf, filepath.Join(dir, "patched"))
+		if err != nil {
+			fatal2("VERIF_PATCH: %v", err)
+		}
+		args = append(args, "-inoverlay", io)
+	}
 	args = append(args, p.Pkgs...)
 	cmd := exec.Command(instr, args...)
 	cmd.Env = goEnv()
@@ -581,6 +590,11 @@ func writeEvidence(p propDef, b *built, tier string, seed uint64, all []workerMs
 	}
 	out, _ := json.MarshalIndent(ev, "", " ")
 	path := filepath.Join(verifDir, "evidence", p.ID+".json")
+	if os.Getenv("VERIF_PATCH") != "" {
+		// a run against a patched tree says nothing about /repo: keep it out of evidence/
+		os.MkdirAll("/tmp/verif-evidence-patched", 0o755)
+		path = filepath.Join("/tmp/verif-evidence-patched", p.ID+".json")
+	}
 	if err := os.WriteFile(path, out, 0o644); err != nil {
 		fmt.Fprintln(os.Stderr, "check: cannot write evidence:", err)
 	}
@@ -866,4 +880,43 @@ func selftest(id string, args []string) int {
 		return 2
 	}
 	return 0
+}
+
+// patchedFiles copies the files a patch touches from /repo to dir, applies the patch there
+// and returns the -inoverlay argument for the instrumenter.
+func patchedFiles(patch, dir string) (string, error) {
+	data, err := os.ReadFile(patch)
+	if err != nil {
+		return "", err
+	}
+	var files []string
+	for _, ln := range strings.Split(string(data), "\n") {
+		if strings.HasPrefix(ln, "+++ b/") {
+			files = append(files, strings.TrimSpace(strings.TrimPrefix(ln, "+++ b/")))
+		}
+	}
+	if len(files) == 0 {
+		return "", fmt.Errorf("no files in %s", patch)
+	}
+	var parts []string
+	for _, f := range files {
+		src, err := os.ReadFile(filepath.Join("/repo", f))
+		if err != nil {
+			return "", err
+		}
+		dst := filepath.Join(dir, f)
+		if err := os.MkdirAll(filepath.Dir(dst), 0o755); err != nil {
+			return "", err
+		}
+		if err := os.WriteFile(dst, src, 0o644); err != nil {
+			return "", err
+		}
+		parts = append(parts, f+"="+dst)
+	}
+	abs, _ := filepath.Abs(patch)
+	cmd := exec.Command("patch", "-p1", "-s", "-d", dir, "-i", abs)
+	if out, err := cmd.CombinedOutput(); err != nil {
+		return "", fmt.Errorf("patch does not apply: %v %s", err, out)
+	}
+	return strings.Join(parts, ","), nil
 }
